@@ -146,9 +146,9 @@ theorem channelMaskSet_wf (rs : RegionState) (m : Mask) (h : regionWF rs = true)
   cases hp : rs.plan with
   | dyn p =>
     have hw := (regionWF_dyn hp).mp h
-    obtain ⟨h1, _, h3⟩ := dynWF_iff.mp hw.2
+    obtain ⟨h1, _, h3, h4⟩ := dynWF_iff.mp hw.2
     refine ⟨?_, rfl⟩
-    exact (regionWF_dyn (rs := { rs with plan := .dyn { p with mask := m } }) rfl).mpr ⟨hw.1, dynWF_iff.mpr ⟨h1, hm, h3⟩⟩
+    exact (regionWF_dyn (rs := { rs with plan := .dyn { p with mask := m } }) rfl).mpr ⟨hw.1, dynWF_iff.mpr ⟨h1, hm, h3, h4⟩⟩
   | fix p =>
     have hw := (regionWF_fix hp).mp h
     obtain ⟨_, h2⟩ := jcWF_iff.mp hw.2.2
@@ -198,10 +198,10 @@ theorem channelMaskValidate_tot (rs : RegionState) (m : Mask) (dr : Option DR) (
 /-! ## plan updates keep the shape -/
 
 theorem dyn_set_wf {r : RegionId} {p : DynPlan} (h : dynWF r p = true) (idx : Nat) (v : Option Channel) (m' : Mask)
-    (hm' : m'.length = 9) (hv : idx < numJoinChannels r → ∃ c, v = some c) :
+    (hm' : m'.length = 9) (hv : idx < numJoinChannels r → ∃ c, v = some c) (hb : inBand r v = true) :
     dynWF r { channels := p.channels.set idx v, mask := m' } = true := by
-  obtain ⟨h1, _, h3⟩ := dynWF_iff.mp h
-  refine dynWF_iff.mpr ⟨by simp [h1], hm', fun i hi => ?_⟩
+  obtain ⟨h1, _, h3, h4⟩ := dynWF_iff.mp h
+  refine dynWF_iff.mpr ⟨by simp [h1], hm', fun i hi => ?_, all_set _ _ _ _ h4 hb⟩
   obtain ⟨c, hc⟩ := h3 i hi
   by_cases hii : idx = i
   · subst hii
@@ -217,22 +217,24 @@ theorem channelDlUpdate_tot (rs : RegionState) (index freq : Nat) (h : regionWF 
     Tot (channelDlUpdate rs index freq) (fun r => regionWF r.2 = true ∧ r.2.id = rs.id) := by
   obtain ⟨p, hp⟩ := (regionWF_isFixed h).2 hf
   have hw := (regionWF_dyn hp).mp h
-  obtain ⟨h1, h2, _⟩ := dynWF_iff.mp hw.2
+  obtain ⟨h1, h2, _, h4⟩ := dynWF_iff.mp hw.2
   unfold channelDlUpdate
   simp only [hp]
   split
   · exact Tot.pure ⟨h, rfl⟩
   · rename_i hidx
     refine Tot.bind (isEnabled_tot p.mask index h2 (by omega)) (fun en _ => ?_)
-    rw [List.getElem?_eq_getElem (by omega)]
+    have hslot : p.channels[index]? = some (p.channels[index]'(by omega)) := List.getElem?_eq_getElem (by omega)
+    rw [hslot]
     simp only
     split
-    · rename_i c
+    · rename_i c hc
+      have hcb : inBand rs.id (some c) = true := by rw [← hc]; exact all_getElem? _ _ _ _ h4 hslot
       split
       · split
         · refine Tot.pure ⟨?_, rfl⟩
           exact (regionWF_dyn (rs := { rs with plan := .dyn { p with channels := p.channels.set index _ } }) rfl).mpr
-            ⟨hw.1, dyn_set_wf hw.2 index _ p.mask h2 (fun _ => ⟨_, rfl⟩)⟩
+            ⟨hw.1, dyn_set_wf hw.2 index _ p.mask h2 (fun _ => ⟨_, rfl⟩) hcb⟩
         · exact Tot.pure ⟨h, rfl⟩
       · exact Tot.pure ⟨h, rfl⟩
     · exact Tot.pure ⟨h, rfl⟩
@@ -254,7 +256,7 @@ theorem handleNewChannel_tot (rs : RegionState) (index freq : Nat) (drr : Option
       split
       · refine Tot.bind (setChannel_tot p.mask index false h2 (by omega)) (fun m' hm' => Tot.pure ⟨?_, rfl⟩)
         exact (regionWF_dyn (rs := { rs with plan := .dyn { channels := p.channels.set index none, mask := m' } }) rfl).mpr
-          ⟨hw.1, dyn_set_wf hw.2 index none m' hm' (fun hc => absurd hc hlo)⟩
+          ⟨hw.1, dyn_set_wf hw.2 index none m' hm' (fun hc => absurd hc hlo) rfl⟩
       · cases drr with
         | none => exact Tot.pure ⟨h, rfl⟩
         | some r =>
@@ -271,18 +273,22 @@ theorem handleNewChannel_tot (rs : RegionState) (index freq : Nat) (drr : Option
             · exact Tot.pure trivial
           refine Tot.bind hsup (fun sup _ => ?_)
           split
-          · refine Tot.bind (setChannel_tot p.mask index true h2 (by omega)) (fun m' hm' => Tot.pure ⟨?_, rfl⟩)
+          · rename_i hboth
+            have hfv : frequencyValid rs.id freq = true := by
+              simp only [Bool.and_eq_true] at hboth; exact hboth.1
+            refine Tot.bind (setChannel_tot p.mask index true h2 (by omega)) (fun m' hm' => Tot.pure ⟨?_, rfl⟩)
             exact (regionWF_dyn (rs := { rs with plan := .dyn { channels := p.channels.set index _, mask := m' } }) rfl).mpr
-              ⟨hw.1, dyn_set_wf hw.2 index _ m' hm' (fun _ => ⟨_, rfl⟩)⟩
+              ⟨hw.1, dyn_set_wf hw.2 index _ m' hm' (fun _ => ⟨_, rfl⟩) hfv⟩
           · exact Tot.pure ⟨h, rfl⟩
 
 /-- the CFList loop: slots from the first non-default one on; never touches the default channels -/
 theorem setChannelSlots_tot (r : RegionId) (chans : List (Option Channel)) (i : Nat) (fs : List Nat)
     (hl : chans.length = 16) (hi : i + fs.length ≤ 16) (hlo : numJoinChannels r ≤ i)
-    (hd : ∀ j, j < numJoinChannels r → ∃ c, chans[j]? = some (some c)) :
-    Tot (setChannelSlots r chans i fs) (fun out => out.length = 16 ∧ ∀ j, j < numJoinChannels r → ∃ c, out[j]? = some (some c)) := by
+    (hd : ∀ j, j < numJoinChannels r → ∃ c, chans[j]? = some (some c)) (hb : chans.all (inBand r) = true) :
+    Tot (setChannelSlots r chans i fs) (fun out => out.length = 16 ∧
+      (∀ j, j < numJoinChannels r → ∃ c, out[j]? = some (some c)) ∧ out.all (inBand r) = true) := by
   induction fs generalizing chans i with
-  | nil => exact ⟨chans, rfl, hl, hd⟩
+  | nil => exact ⟨chans, rfl, hl, hd, hb⟩
   | cons f rest ih =>
     unfold setChannelSlots
     simp only [List.length_cons] at hi
@@ -305,6 +311,12 @@ theorem setChannelSlots_tot (r : RegionId) (chans : List (Option Channel)) (i : 
       · split
         · rw [List.getElem?_set_ne hne]; exact hc
         · exact hc
+    · split
+      · exact all_set _ _ _ _ hb rfl
+      · split
+        · rename_i hv
+          exact all_set _ _ _ _ hb (by simpa [inBand, mkChan] using hv)
+        · exact hb
 
 theorem processJoinAccept_tot (rs : RegionState) (cf : Option CfList) (h : regionWF rs = true) (hcf : cfListWF cf = true) :
     Tot (processJoinAccept rs cf) (fun rs' => regionWF rs' = true ∧ rs'.id = rs.id) := by
@@ -312,7 +324,7 @@ theorem processJoinAccept_tot (rs : RegionState) (cf : Option CfList) (h : regio
   cases hp : rs.plan with
   | dyn p =>
     have hw := (regionWF_dyn hp).mp h
-    obtain ⟨h1, h2, h3⟩ := dynWF_iff.mp hw.2
+    obtain ⟨h1, h2, h3, h4⟩ := dynWF_iff.mp hw.2
     cases cf with
     | none => exact Tot.pure ⟨h, rfl⟩
     | some c =>
@@ -322,11 +334,11 @@ theorem processJoinAccept_tot (rs : RegionState) (cf : Option CfList) (h : regio
         simp only
         have hfs : fs.length = 5 := by simpa [cfListWF] using hcf
         have hn := numJoinChannels_le rs.id
-        refine Tot.bind (setChannelSlots_tot rs.id p.channels (numJoinChannels rs.id) fs h1 (by omega) (Nat.le_refl _) h3) ?_
-        intro chans ⟨hc1, hc2⟩
+        refine Tot.bind (setChannelSlots_tot rs.id p.channels (numJoinChannels rs.id) fs h1 (by omega) (Nat.le_refl _) h3 h4) ?_
+        intro chans ⟨hc1, hc2, hc3⟩
         refine Tot.pure ⟨?_, rfl⟩
         exact (regionWF_dyn (rs := { rs with plan := .dyn { p with channels := chans } }) rfl).mpr
-          ⟨hw.1, dynWF_iff.mpr ⟨hc1, h2, hc2⟩⟩
+          ⟨hw.1, dynWF_iff.mpr ⟨hc1, h2, hc2, hc3⟩⟩
   | fix p =>
     have hw := (regionWF_fix hp).mp h
     obtain ⟨_, hsb⟩ := jcWF_iff.mp hw.2.2
